@@ -3,7 +3,7 @@
 import json, os, re
 V = "/verif"
 CORE = {
- "C01": "`GaussianModes.displace/squeeze/phase_shift/beamsplitter/loss/thermal_loss/init_thermal/add_mode` = documented Bogoliubov / channel action on every entry of N, M, alpha for symbolic register size and positions; Fock `apply_twomode_gate` axis bookkeeping (ghost axis tracker, sizes 2-5, every ordered pair, pure/mixed); Fock wrapper: every method addresses the simulator through the mode map; bosonic simulator: every Gaussian operation = documented affine map on every component",
+ "C01": "`GaussianModes.displace/squeeze/phase_shift/beamsplitter/loss/thermal_loss/init_thermal/add_mode` = documented Bogoliubov / channel action on every entry of N, M, alpha for symbolic register size and positions; Fock `apply_twomode_gate` axis bookkeeping (ghost axis tracker, sizes 2-5, every ordered pair, pure/mixed); Fock wrapper: every method addresses the simulator through the mode map; bosonic simulator: every Gaussian operation = documented affine map on every component; bosonic `prepare_gaussian_state` for every ordered mode list",
  "C02": "9 gate decompositions (incl. sMZgate) x mode orders x dagger fold to the documented symplectic action for every parameter; `Gate.apply` first-parameter convention per class; `Gaussian._decompose` diagonal branches with symbolic variances",
  "C03": "`Gate.merge` for 10 families, `Channel.merge` (Loss, ThermalLoss, MSgate) = composition, operands untouched; `optimize_circuit` on fixed shapes and against abstract operations with a free non-commutative merge (call order, nothing lost, maximal merging); abstract operations with measured-parameter dependencies",
  "C04": "shape-bounded contracts on ABSTRACT commands (dependency sets): `list_to_DAG`, `DAG_to_list`, `group_operations`, `optimize_circuit` keep every dependent pair in order; `par_regref_deps` over the parameter grammar; `gaussian_merge` and GBS collection bounded",
@@ -19,7 +19,7 @@ CORE = {
  "C14": "IR-object round trip with record stubs (every class of the catalogue, falsy select, multi-digit measured modes, TDM arrays); `_factor_out_pi` for all reals (lemma chain); twelve loop variables",
  "C15": "hbar scaling of MeasureHomodyne / MSgate / Vgate / Gaussian / state constructors with symbolic hbar; operation objects untouched, second application identical; state objects closed over their own hbar (global and state hbar different symbols)",
  "C16": "`reduced_gaussian` (symbolic size), consumers hand the reduced data on; bosonic state methods (symbolic values); Fock / Gaussian index strings with labelled tensors (`dm`, `trace`, `reduced_dm`, `fidelity`, pure-branch order); bosonic `marginal`; Fock `fidelity`",
- "C17": "T/Ti/MZ block structure, T.Ti = I, nulling lemmas; LAPACK routines bounded; drivers `graph_embed` / `bipartite_graph_embed` against callee contracts",
+ "C17": "T/Ti/MZ block structure, T.Ti = I, nulling lemmas; LAPACK routines bounded; drivers `graph_embed` / `bipartite_graph_embed` against callee contracts; `takagi` validation (absolute tolerance)",
  "C18": "`Program.__eq__` for circuits of any length; `program_equivalence` per class/placement and, for 2-3 commands, the labelled graphs handed to networkx (every node carries its own command's data), also structure-only",
  "C19": "`sample_to_event`, `orbit_to_sample` for any length; combinatorics and local search (all outcomes enumerated) bounded",
 }
